@@ -184,12 +184,30 @@ let c09 op a =
   | "m.c09.enc_int", [d] -> hex (int_encode (z_of_string d))
   | _ -> "(unknown-op " ^ op ^ ")"
 
+
+(* ---------- C16 ---------- *)
+let perr_s = function
+  | PInvalidBase32 -> "invalid-base32" | PTextTooShort -> "too-short" | PTextTooLong -> "too-long"
+  | PCheckSequence -> "crc" | PAbnormalGrouped -> "grouping" | PBytesTooLong -> "bytes-too-long"
+let c16 op a =
+  match op, a with
+  | "c16.to_text", [h] ->
+      (match try_from_slice (unhex h) with Inl bs -> "(ok " ^ hex (to_text bs) ^ ")" | Inr e -> "(err " ^ perr_s e ^ ")")
+  | "c16.from_text", [h] ->
+      (match from_text (unhex h) with Inl bs -> "(ok " ^ hex bs ^ ")" | Inr e -> "(err " ^ perr_s e ^ ")")
+  | "c16.try_from_slice", [h] ->
+      (match try_from_slice (unhex h) with Inl bs -> "(ok " ^ hex bs ^ ")" | Inr e -> "(err " ^ perr_s e ^ ")")
+  | "c16.wire", [h] ->
+      (match try_from_slice (unhex h) with Inl bs -> "(ok " ^ hex bs ^ ")" | Inr _ -> "(err)")
+  | _ -> "(unknown-op " ^ op ^ ")"
+
 let dispatch (op : string) (a : string list) : string =
   let base = if String.length op > 2 && String.sub op 0 2 = "m." then String.sub op 2 (String.length op - 2) else op in
   let prop = try String.sub base 0 (String.index base '.') with Not_found -> base in
   match prop with
   | "c09" -> c09 op a
   | "c15" -> c15 op a
+  | "c16" -> c16 op a
   | _ -> "(unknown-op " ^ op ^ ")"
 
 let () =
